@@ -223,6 +223,10 @@ class AsyncFIXConnection:
                     return
             self._socket_writer = None
             self._socket_reader = None
+            # what is left of this connection's stream (the head of a frame that was
+            #  cut off, frames behind the one that ended the session) is not a part of
+            #  the next connection's stream
+            self._msg_buffer = b""
             await self._state_set(disconn_state)
             await self.on_disconnect()
 
